@@ -445,7 +445,7 @@ pub fn run_c01(ctx: &Ctx) -> ! {
                     if i % 1024 == 0 {
                         HEARTBEAT[w].store(now_ms(), Ordering::Relaxed);
                     }
-                    if let Ok(f) = Frame::from_bytes(&frames[i as usize % frames.len()]) {
+                    if let Ok(Ok(f)) = catch_unwind(AssertUnwindSafe(|| Frame::from_bytes(&frames[i as usize % frames.len()]))) {
                         let _ = lt.planes.action(f, lt.rx, lt.range);
                     }
                 }
@@ -514,9 +514,19 @@ pub fn run_c01(ctx: &Ctx) -> ! {
             let tc = *prng.pick(&[9u8, 11, 18, 20, 22]);
             let me = gen_me(&mut prng, tc);
             let b = squitter(17, 5, 0x123456, &me);
-            if let Ok(f) = Frame::from_bytes(&b) {
-                if let Some(a) = position_of(&f) {
-                    pool.push(a);
+            // (a decode that panics is a finding of this check, not an accident of the harness)
+            match catch_unwind(AssertUnwindSafe(|| Frame::from_bytes(&b))) {
+                Ok(Ok(f)) => {
+                    if let Some(a) = position_of(&f) {
+                        pool.push(a);
+                    }
+                }
+                Ok(Err(_)) => {}
+                Err(_) => {
+                    let sig = format!("C01/panic/decode/{}", refdec::class_of(&b));
+                    if w == 0 && !st.failures.contains_key(&sig) {
+                        st.fail(Failure { sig, msg: format!("Frame::from_bytes panicked at {} (frame {})", last_panic(), bits::hex(&b)), replay: json!({"kind":"frame","check":"total","hex":bits::hex(&b)}) });
+                    }
                 }
             }
         }
